@@ -360,9 +360,10 @@ def prog_text(prog):
     return " ".join(out)
 
 
-def validate_traces(ck, trace, parts, classify, label):
+def validate_traces(ck, trace, parts, classify, label, retry=True):
     """validate a trace in `parts` parallel TLC runs; classify(event, expected) -> signature or None"""
     t0 = time.time()
+    retry_cases = []
     files = split_trace(trace, parts)
     with cf.ThreadPoolExecutor(max_workers=min(12, len(files))) as ex:
         results = list(ex.map(validate_machine, files))
@@ -388,6 +389,12 @@ def validate_traces(ck, trace, parts, classify, label):
                 prog, inp = e["prog"], e["input"]
                 badruns = e["bad"]
                 badruns = list(badruns.values()) if isinstance(badruns, dict) else badruns
+                # a run that was killed by the harness's time limit although the reference run ends is first
+                # repeated with a generous limit: a loaded machine must not turn into an alarm
+                if retry and exp and exp.get("ending") != "running" and any(r.get("timeout") for r in badruns):
+                    retry_cases.append({"prog": prog, "input": inp, "tag": e.get("tag", ""), "bound": e.get("bound", 400),
+                                        "hows": [r.get("how") for r in badruns]})
+                    badruns = [r for r in badruns if not r.get("timeout")]
                 for run in badruns:
                     sig = classify(e, run, exp)
                     if sig:
@@ -406,6 +413,19 @@ def validate_traces(ck, trace, parts, classify, label):
                                  {"kind": "steps", "prog": prog, "input": inp, "event": e, "expected": exp})
     ck.cov["traces_validated_against_impl"] += total
     log("%s: %d events validated in %.1fs" % (label, total, time.time() - t0))
+    if retry_cases:
+        work = tmpdir("retry_%s_%s" % (ck.pid, label.replace("/", "_")))
+        for how_kind in ("run-", "compiled-"):
+            sel = [c for c in retry_cases if any(h.startswith(how_kind) for h in c["hows"])]
+            if not sel:
+                continue
+            lv = ",".join(sorted(set(h[-1] for c in sel for h in c["hows"] if h.startswith(how_kind))))
+            cpath = os.path.join(work, "cases_%s.json" % how_kind.strip("-"))
+            write_cases(cpath, [{"prog": c["prog"], "input": c["input"], "tag": c["tag"]} for c in sel])
+            obs = run_obs(ck, cpath, "retry_" + how_kind.strip("-"), levels=lv if how_kind == "run-" else "",
+                          clevels=lv if how_kind == "compiled-" else "", bound=max(c["bound"] for c in sel), timeout_ms=30000)
+            validate_traces(ck, obs, parts, classify, label + "-retry", retry=False)
+        ck.cov["vacuity"][label + "_timeouts_retried"] = len(retry_cases)
     return total
 
 
